@@ -278,6 +278,12 @@ func (x *Exec) typeFacts() {
 				x.D.Axiom(fmt.Sprintf("(not (spec.NoUnwrap %d))", id))
 			}
 		}
+		if x.D.Has("f:spec.NotAnError") {
+			errT := types.Universe.Lookup("error").Type().Underlying().(*types.Interface)
+			if !types.Implements(t, errT) {
+				x.D.Axiom(fmt.Sprintf("(spec.NotAnError %d)", id))
+			}
+		}
 		if x.D.Has("f:spec.EmptyStructType") {
 			if st, ok := types.Unalias(t).Underlying().(*types.Struct); ok && st.NumFields() == 0 {
 				x.D.Axiom(fmt.Sprintf("(spec.EmptyStructType %d)", id))
@@ -611,6 +617,14 @@ func (x *Exec) globalPtr(g *ssa.Global) Value {
 	elem := g.Type().(*types.Pointer).Elem()
 	ref := x.D.Const(name, SInt)
 	x.D.Axiom(fmt.Sprintf("(< %s 0)", ref))
+	// unexported error sentinels of the repository: private objects no dependency can return
+	if types.TypeString(elem, nil) == "error" && !g.Object().Exported() && x.P.IsRepoPkg(g.Pkg.Pkg.Path()) && !x.P.MutGlobals[g] {
+		key := x.TM.Key(elem)
+		arr := x.D.Const(x.TM.CellArray(key)+"@0", fmt.Sprintf("(Array Int %s)", SIface))
+		f := x.D.Fun("spec.RepoPrivateSentinel", []string{SIface}, SBool)
+		x.D.Axiom(app(f, Select(arr, ref)))
+		x.D.Axiom(Not(Eq(app("itag", Select(arr, ref)), "0")))
+	}
 	return Value{Typ: g.Type(), Sort: SInt, Ptr: &Pointer{Base: ref, Elem: elem}, Term: ref}
 }
 
